@@ -63,8 +63,10 @@ def handler_clauses(command, device_error=-905):
         # the connection; what the handler then answers is not constrained by C11 - see DESIGN observations)
         return implies(ci(old) and self._comm_issue and (g.conn > old.g.conn or g.disc > old.g.disc)
                        and classify(g) != K_ERR, result[0] == device_error)
+    @only("C03")
+    def success_carries_output(result): return implies(result[0] >= 0, len(result) == 2)
     return [documented_code, timeout_is_device_error, link_error_is_device_error_and_flagged,
-            failed_repair_is_device_error]
+            failed_repair_is_device_error, success_carries_output]
 
 
 def handler_raises():
@@ -76,10 +78,20 @@ def handler_raises():
 REQ_KEYID = JSONOV(keyId=PATH)
 
 
+def RES(**fields):
+    """a handler returns (code,) on failure or (code, output) on success"""
+    return ONEOF(TUPLE(INT_), TUPLE(INT_, PYDICT(**fields)))
+
+
+SIGDICT = PYDICT(r=STR_, s=STR_)
+HBRES = RES(pubKey=STR_, message=STR_, tweak=STR_, signature=SIGDICT)
+
+
 @contract("ledger/protocol.py", "HSM2ProtocolLedger._get_pubkey", serves=ALLH)
 class GetPubkey(Contract):
     self_spec = PROTO
     params = dict(request=REQ_KEYID)
+    result = RES(pubKey=STR_)
     modifies_self = dict(_comm_issue=BOOL_)
 
     def validated(request): return jtag(request) == 6 and path_wf(request["keyId"])
@@ -105,6 +117,10 @@ class GetPubkey(Contract):
 class BlockchainState(Contract):
     self_spec = PROTO
     params = dict(request=JSON_)
+    result = RES(state=PYDICT(best_block=STR_, newest_valid_block=STR_, ancestor_block=STR_, ancestor_receipts_root=STR_,
+                              updating=PYDICT(best_block=STR_, newest_valid_block=STR_, next_expected_block=STR_,
+                                              total_difficulty=INT_, in_progress=BOOL_, already_validated=BOOL_,
+                                              found_best_block=BOOL_)))
     modifies_self = dict(_comm_issue=BOOL_)
 
     def success_iff_device_answered(result, g, old):
@@ -136,6 +152,7 @@ class BlockchainState(Contract):
 class ResetAdvanceBlockchain(Contract):
     self_spec = PROTO
     params = dict(request=JSON_)
+    result = RES()
     modifies_self = dict(_comm_issue=BOOL_)
 
     def success_iff_device_answered(result, g, old):
@@ -148,6 +165,7 @@ class ResetAdvanceBlockchain(Contract):
 class GetBlockchainParameters(Contract):
     self_spec = PROTO
     params = dict(request=JSON_)
+    result = RES(parameters=PYDICT(checkpoint=STR_, minimum_difficulty=INT_, network=STR_))
     modifies_self = dict(_comm_issue=BOOL_)
 
     def success_iff_device_answered(result, g, old):
@@ -173,6 +191,7 @@ from spec.requests import (valid_auth, msg_hash, msg_legacy, msg_segwit, sign_va
 class Sign(Contract):
     self_spec = PROTO
     params = dict(request=REQ_KEYID)
+    result = RES(signature=SIGDICT)
     modifies_self = dict(_comm_issue=BOOL_)
     inline_callees = ("HSM2Protocol._validate_message", "HSM2Protocol._validate_auth")
     max_paths = 6000
@@ -234,6 +253,7 @@ def hb_fields(result, g, old):
 class SignerHeartbeatHandler(Contract):
     self_spec = PROTO
     params = dict(request=JSON_)
+    result = HBRES
     modifies_self = dict(_comm_issue=BOOL_)
 
     def validated(request):
@@ -269,6 +289,7 @@ class SignerHeartbeatHandler(Contract):
 class UIHeartbeatHandler(Contract):
     self_spec = PROTO
     params = dict(request=JSON_)
+    result = HBRES
     modifies_self = dict(_comm_issue=BOOL_)
     max_paths = 6000
 
